@@ -1,3 +1,8 @@
+// NOT LOADED: unit `record` (C13/C14), removed under the fallback rule. Even a single CONCRETE out-of-order
+// presentation (c, then a; b omitted) of a 3-field record does not finish in 600 s, the symbolic version not in 3000 s:
+// the pooled Vec<Option<Vec<u8>>> / Vec<Vec<u8>> manipulation (resize, take, push, drain) on heap objects defeats
+// CBMC's symbolic execution. The contracts below are what was attempted; C13 and C14 are not claimed.
+
 //@ unit: record
 //@ inject-into: serde_avro_fast/src/ser/serializer/struct_or_map.rs
 //@ requires-unit: schema_helper
@@ -12,10 +17,10 @@
 // ---------------------------------------------------------------------------------------------
 // C13 (field-order independence) and C14 (pooled buffers stay clean) on the real record
 // machinery: SerializeStruct::serialize_field -> field_idx -> serialize_record_value, end(), Drop.
-// record R2 { a: long, b: null, c: long } (quick) / R { a: long, b: ["null","long"], c: long } (thorough).
+// record R2 { a: long, b: null, c: long } (quick) / R { a: long, b: ["long","null"], c: long } (thorough).
 // ---------------------------------------------------------------------------------------------
 
-use crate::schema::self_referential::__verif_schema_helper::{record_of, N_LONG, N_NULL, RECORD_ABC, RECORD_ANC, UNION_NULL_LONG};
+use crate::schema::self_referential::__verif_schema_helper::{record_of, N_LONG, N_NULL, RECORD_ABC, RECORD_ANC, UNION_LONG_NULL};
 use crate::ser::__verif_ser_cells::*;
 use std::mem::ManuallyDrop;
 
@@ -87,7 +92,7 @@ fn present_one<W: Write>(
 			// literal nodes per index so that CBMC sees a constant node kind at each call site
 			match idx {
 				0 => serialize_record_value(serializer_state, record_state, 0, &N_LONG, value),
-				1 if b_is_union => serialize_record_value(serializer_state, record_state, 1, &UNION_NULL_LONG, value),
+				1 if b_is_union => serialize_record_value(serializer_state, record_state, 1, &UNION_LONG_NULL, value),
 				1 => serialize_record_value(serializer_state, record_state, 1, &N_NULL, &()),
 				_ => serialize_record_value(serializer_state, record_state, 2, &N_LONG, value),
 			}
@@ -160,12 +165,12 @@ fn reference(n: usize, which: [usize; 3], vals: [i64; 3], b_is_union: bool) -> O
 	k += 1;
 	if b_is_union {
 		if seen[1] {
-			out[k] = 2; // branch 1 ("long") of ["null","long"]
+			out[k] = 0; // branch 0 ("long") of ["long","null"]
 			k += 1;
 			out[k] = spec_enc_long(v[1]).0[0];
 			k += 1;
 		} else {
-			out[k] = 0; // branch 0 ("null")
+			out[k] = 2; // branch 1 ("null"): NOT simply a zero byte
 			k += 1;
 		}
 	} // a `null` field encodes as zero bytes whether presented or omitted
@@ -219,7 +224,7 @@ fn c13_record_any_order() {
 //@ harness: c13_record_any_order_union_field
 //@   props: C13, C14
 //@   tier: thorough
-//@   kind: bounded(record of 3 fields a: long, b: ["null","long"], c: long; every presentation of <= 3 pairs; values one-byte varints); field_idx replaced by its assumed contract (A2')
+//@   kind: bounded(record of 3 fields a: long, b: ["long","null"], c: long; every presentation of <= 3 pairs; values one-byte varints); field_idx replaced by its assumed contract (A2')
 //@   fn: ser::serializer::struct_or_map::{serialize_record_value, end (omitted nullable union field => null branch discriminant), KindRecord::drop} + DatumSerializer::serialize_union_unnamed
 //@   domain: as c13_record_any_order with a nullable-union field
 //@   post: as c13_record_any_order; an omitted b is encoded as the union's null branch, a presented b as branch 1 + long
@@ -288,3 +293,4 @@ fn c13_record_canary() {
 	assert!(r.is_err(), "OBL canary");
 	std::mem::forget(r);
 }
+
